@@ -201,3 +201,27 @@ func vh_C20_usermap_race() {
 	verifRaceFree("C20.usermap.no-data-race")
 	verifReach("end")
 }
+
+// the operator's constraints come from the URL of the auth-only subrequest; a request body
+// relayed from the client (POST/PUT/PATCH, urlencoded) that repeats a constrained key never
+// widens the allowed set
+// verif: unwind=8 strlen=8 concretize=4 also=C19
+func vh_C08_authonly_body() {
+	s := vSessionMain("sess")
+	vWithGroups(s, "sess", 1)
+	u := &url.URL{Path: "/oauth2/auth"}
+	verifSetQuery(u, url.Values{"allowed_groups": {"admins"}})
+	methods := []string{"GET", "POST", "PUT", "PATCH"}
+	req := &http.Request{Method: methods[ndChoice("method", len(methods))], URL: u, Header: http.Header{}}
+	if ndBool("has-body") {
+		verifSetPostForm(req, url.Values{"allowed_groups": {ndString("body-allowed-groups")}})
+	}
+	got := authOnlyAuthorize(req, s)
+	inAdmins := len(s.Groups) == 1 && s.Groups[0] == "admins"
+	verifAssert("C08.authonly.body-never-widens-the-constraint", got == inAdmins)
+	if got {
+		verifReach("allowed")
+	} else {
+		verifReach("denied")
+	}
+}
